@@ -16,6 +16,7 @@ From Coq Require Import NArith.
 From BS Require Abs.Entities Abs.EntitiesProofs Abs.Values Abs.ValuesProofs Abs.Parents Abs.ParentsProofs
                 Abs.Assets Abs.AssetsProofs.
 From BS Require Import Sync.Types Sync.Model Sync.Proofs.FixLemmas Sync.Proofs.Fix.
+From BS Require Sync.Proofs.Debounce.
 
 (* ---------------- entities (spawn / despawn / snapshot) ---------------------------------------- *)
 Module E.
@@ -171,6 +172,60 @@ Theorem C09_companions_leave_detectors_alone :
     t_ctok (sync_detect (flush pr) t last) = t_ctok (sync_detect pr t last).
 Proof. exact fix_flush_detector_unaffected. Qed.
 
+(* The debounce of component updates on the FRAME-LEVEL model (Sync/Proofs/Debounce.v), for ALL states:
+   what apply_component_change_from_network, the change detector sync_detect::<T> and
+   signal_component_changed do together. *)
+Module D.
+  Import Debounce.
+
+  (* NO ECHO: a value applied from the network is not queued by the detector of its type, whatever the
+     detector has seen before; once the detector sees the change the debounce entry is consumed (it cannot
+     swallow a later change). Side conditions, each refuted without it in Debounce.v: the wire value is not a
+     raw SkinnedMesh (senders encode it as a mapper), no other entity is signalled under the key (C01). *)
+  Theorem C09_applied_update_is_not_echoed :
+    forall pr e t v pr' en u last,
+      apply_component_change pr e t v = (pr', true) ->
+      p_ents pr !! e = Some en -> en_sync en = Some u ->
+      is_skin v = false ->
+      no_other_signal pr (stored_type t v) last e (u, wire_type t v) ->
+      let k := (u, wire_type t v) in
+      let pr1 := sync_detect pr' (stored_type t v) last in
+      queue_of k (t_queue pr1) = queue_of k (t_queue pr') /\
+      (exists added, t_queue pr1 = t_queue pr' ++ added /\ Forall (fun x : uuid * tyid * value => x.1 <> k) added) /\
+      ((last < p_tick pr)%N -> memN (stored_type t v) (en_excl en) = false -> tok_find k (t_ctok pr1) = None).
+  Proof. exact applied_update_is_not_echoed. Qed.
+
+  (* ... while a LOCAL write made after the frame of the apply IS announced, and the entry is gone (S22) *)
+  Theorem C09_local_write_after_apply_is_announced :
+    forall pr e t v pr' en u w last,
+      apply_component_change pr e t v = (pr', true) ->
+      p_ents pr !! e = Some en -> en_sync en = Some u ->
+      ann_type (stored_type t v) w = wire_type t v ->
+      memN (stored_type t v) (en_excl en) = false ->
+      (last <= p_tick pr)%N ->
+      no_other_signal pr (stored_type t v) last e (u, wire_type t v) ->
+      let k := (u, wire_type t v) in
+      let pr1 := sync_detect (app_step (last_schedule pr') (OWrite e (stored_type t v) w)) (stored_type t v) last in
+      queue_of k (t_queue pr1) = queue_of k (t_queue pr') ++ [(k, ann_val (t_e2u pr) w)] /\
+      tok_find k (t_ctok pr1) = None.
+  Proof. exact local_write_next_frame_is_announced. Qed.
+
+  (* a change without a debounce entry is announced exactly once *)
+  Theorem C09_change_without_entry_announced_once :
+    forall pr (t : tyid) last e en u c,
+      p_ents pr !! e = Some en -> en_sync en = Some u -> en_comps en !! t = Some c ->
+      memN t (en_excl en) = false ->
+      ((last < c_changed c)%N \/ (last < en_sync_added en)%N) ->
+      let k := (u, ann_type t (c_val c)) in
+      tok_find k (t_ctok pr) = None ->
+      no_other_signal pr t last e k ->
+      let pr1 := sync_detect pr t last in
+      queue_of k (t_queue pr1) = queue_of k (t_queue pr) ++ [(k, ann_val (t_e2u pr) (c_val c))] /\
+      (exists added, t_queue pr1 = t_queue pr ++ added /\ queue_of k added = [(k, ann_val (t_e2u pr) (c_val c))]) /\
+      tok_find k (t_ctok pr1) = None.
+  Proof. exact detector_without_token_announces. Qed.
+End D.
+
 Print Assumptions E.C09_entity_messages_per_operation.
 Print Assumptions E.C09_client_never_relays.
 Print Assumptions E.C09_relay_cost.
@@ -191,3 +246,6 @@ Print Assumptions A.C09_assets_exchange_bounded.
 Print Assumptions A.C09_materials_no_echo.
 Print Assumptions A.C09_materials_traffic_bound.
 Print Assumptions C09_companions_leave_detectors_alone.
+Print Assumptions D.C09_applied_update_is_not_echoed.
+Print Assumptions D.C09_local_write_after_apply_is_announced.
+Print Assumptions D.C09_change_without_entry_announced_once.
